@@ -4,7 +4,8 @@ usage: tools_mutate.py <mutant-id|patch.diff> <Cxx> [more props]"""
 import json, os, shutil, subprocess, sys, tempfile
 HERE = os.path.dirname(os.path.abspath(__file__))
 def main():
-    mid = sys.argv[1]; props = sys.argv[2:]
+    mid = sys.argv[1]; props = [a for a in sys.argv[2:] if not a.startswith('--only=')]
+    only = ([a[7:] for a in sys.argv[2:] if a.startswith('--only=')] or ['.'])[0]
     scratch = tempfile.mkdtemp(prefix='pyvc_mut_', dir='/var/tmp')
     try:
         dst = os.path.join(scratch, 'repo')
@@ -28,7 +29,7 @@ def main():
         env = dict(os.environ, PYVC_REPO=dst, PYVC_NO_EVIDENCE='1')
         rc = 0
         for prop in props:
-            r = subprocess.run([os.path.join(HERE, 'check'), prop, '--only', '.'], env=env)
+            r = subprocess.run([os.path.join(HERE, 'check'), prop, '--only', only], env=env)
             rc = max(rc, r.returncode)
         return rc
     finally:
